@@ -159,6 +159,47 @@ type GhostFunc struct {
 
 var ghostRe = regexp.MustCompile(`^func\s+([A-Za-z_][A-Za-z0-9_]*)\s*\(([^)]*)\)\s*(\S+)$`)
 
+// ghostFuncAny finds a ghost function by name in any contract file (names are unique by convention).
+func (p *Program) ghostFuncAny(name string) (*GhostFunc, string) {
+	for _, cf := range p.files {
+		if g := p.ghostFunc(cf.PkgPath, name); g != nil {
+			return g, cf.PkgPath
+		}
+	}
+	return nil, ""
+}
+
+// GhostField is a mutable specification-only field of a (typically interface) type:
+// `//@ ghost field (Iterator) pos int`.
+type GhostField struct {
+	TypeName string
+	Name     string
+	Type     string
+	PkgPath  string
+}
+
+var ghostFieldRe = regexp.MustCompile(`^field\s+\(([A-Za-z_][A-Za-z0-9_]*)\)\s+([A-Za-z_][A-Za-z0-9_]*)\s+(\S+)$`)
+
+// ghostField looks up a ghost field of the named type t (declared in t's package).
+func (p *Program) ghostField(t types.Type, name string) *GhostField {
+	nt, ok := t.(*types.Named)
+	if !ok || nt.Obj().Pkg() == nil {
+		return nil
+	}
+	for _, cf := range p.files {
+		if cf.PkgPath != nt.Obj().Pkg().Path() {
+			continue
+		}
+		for _, g := range cf.Ghosts {
+			m := ghostFieldRe.FindStringSubmatch(strings.TrimSpace(g))
+			if m != nil && m[1] == nt.Obj().Name() && m[2] == name {
+				return &GhostField{TypeName: m[1], Name: m[2], Type: m[3], PkgPath: cf.PkgPath}
+			}
+		}
+	}
+	return nil
+}
+
 func (p *Program) ghostFunc(pkgPath, name string) *GhostFunc {
 	for _, cf := range p.files {
 		if cf.PkgPath != pkgPath {
